@@ -241,7 +241,9 @@ def find_machine(fninfo, singletons=('NIL', 'HARDLINE')):
     for b in branches:
         b.paths = enumerate_paths(b.body, stack, {})
         # a branch whose effect on the stack is not visible here (pushed through a helper, or in a form that is not a plain triple)
-        b.opaque = any(e[0] == 'push?' or (e[0] == 'call' and e[1] in local and (stack in e[2] or stack in e[3].values()))
+        # ... or that does part of its work in a private helper of the module (the facts the rules look for may sit there)
+        b.opaque = any(e[0] == 'push?' or (e[0] == 'call' and e[1] in local and e[1] not in ('fast_fitting_predicate', 'smart_fitting_predicate')
+                                           and e[1].startswith('_'))
                        for p in b.paths for e in p.events)
     if inexact:
         m.exact = False
